@@ -56,7 +56,7 @@ def uop (name : String) (j : Json) : Except String UOp := do
   | "pop" => return .pop (← optInt j "i")
   | "replace" => return .replace (← strs (j.getObjValD "us"))
   | "setitem" => return .setItem (← getInt j "i") (← getStr j "u")
-  | "setslice" => return .setSlice (← optInt j "a") (← optInt j "b") (← strs (j.getObjValD "us"))
+  | "setslice" => return .setSlice (← optInt j "a") (← optInt j "b") (← optInt j "st") (← strs (j.getObjValD "us"))
   | _ => throw s!"unknown list op {name}"
 
 def top (name : String) (j : Json) : Except String TOp := do
@@ -143,8 +143,8 @@ def lookupUrl (tbl : List (String × Bool)) (s : String) : Bool := (tbl.lookup s
 /-- op `c16.run`: {urls, init, ops, obs?} ↦ per step: model state, outcome, read-back,
     `specM` = Spec.holds on the model's result, `specI` = Spec.holds on the observed
     implementation result (if given), `hyp` = hypothesis of `C16_inv_reachable_partial` for the
-    prefix ending here (start state satisfies the spec ∧ no index/slice assignment so far; there is
-    no assumption on `is_url` any more) -/
+    prefix ending here (start state satisfies the spec ∧ no slice assignment on the tiers container
+    — open finding D16b — so far; there is no assumption on `is_url`) -/
 def runOp (j : Json) : Except String Json := do
   let tbl ← table j
   let isUrl := lookupUrl tbl
